@@ -302,4 +302,35 @@ macro "c09_fields" : tactic => `(tactic| (
   (try rfl)
   done))
 
+/-- the fields of a burst write of whole registers starting at `reg` -/
+def regFields : Nat → List UInt8 → List Field
+  | _, [] => []
+  | reg, b :: bs => ⟨reg, 0xff, b⟩ :: regFields (reg + 1) bs
+
+theorem writeN_regFields (d : List UInt8) (c : Chip) (reg : Nat)
+    (hp : ∀ i, i < d.length → c.plain (reg + i)) : c.writeN reg d = c.setFields (regFields reg d) := by
+  induction d generalizing c reg with
+  | nil => rfl
+  | cons b bs ih =>
+    have hp0 : c.plain reg := hp 0 (by simp)
+    have h0 : reg ≠ 0 := by have := hp0.1; omega
+    have h1 : reg ≠ 1 := by have := hp0.1; omega
+    unfold Chip.writeN regFields
+    rw [if_neg h0, write_plain _ _ _ hp0]
+    show _ = (c.setField ⟨reg, 0xff, b⟩).setFields (regFields (reg + 1) bs)
+    have : c.setField ⟨reg, 0xff, b⟩ = c.setCell reg b := by
+      unfold Chip.setField; simp only [full_write]
+    rw [this]
+    apply ih
+    intro i hi
+    have := hp (i + 1) (by simp; omega)
+    rw [show reg + 1 + i = reg + (i + 1) by omega]
+    exact plain_set c reg _ b h1 this
+
+theorem readN_plain3 (c : Chip) (a : Nat) (h0 : c.plain a) (h1 : c.plain (a + 1)) (h2 : c.plain (a + 2)) :
+    c.readN a 3 = ([c.cell a, c.cell (a + 1), c.cell (a + 2)], c) := by
+  have ha : a ≠ 0 := by have := h0.1; omega
+  have ha1 : a + 1 ≠ 0 := by omega
+  simp [readN, read_plain c a h0, read_plain c (a + 1) h1, read_plain c (a + 1 + 1) h2, ha]
+
 end Sx
